@@ -97,8 +97,16 @@ class MacroEngine(c01.CallEngine):
           p = rng.choice(consumer['sig']['args'])
           m = rng.choice(MACROS + ['undefined'] if rng.random() < 0.9 else ['undefined'])
           v = ['macro', m]
-          if rng.random() < 0.3:
+          y = rng.random()
+          if y < 0.3:
             v = ['l', [['macro', m], ['macro', rng.choice(MACROS)], ['i', 0]]]
+          elif y < 0.4:
+            # a macro in KEY position: evaluated at call time, checked at finalize.  Its value must be hashable
+            # (hashability is CPython's, not modelled): an undefined macro, or one bound to an int
+            mk = rng.choice(['undefined', 'hk'])
+            if mk == 'hk':
+              ops.append(['pbind', 'hk', ['i', rng.randint(0, 9)]])
+            v = ['d', [[['macro', mk], ['i', 0]]]]
           ops.append(['pbind', consumer['sel'] + '.' + p, v])
         elif r < 0.85:    # constants
           nm = rng.choice(CONSTS + ['1bad', 'a..K', 'K\n', 'a.K\n'])
